@@ -84,6 +84,12 @@ impl TombstoneLog {
 
                 for (slot, buf) in buffer.chunks_exact(Tombstone::SERIALIZED_LEN).enumerate() {
                     let tombstone = Tombstone::read(buf);
+                    // The slots carry no checksum. A sequence of all ones can never have been assigned (the counter
+                    // would have overflowed): it is a damaged slot, e.g. an erased page that reads as 0xFF. Taking it
+                    // as the latest sequence would overflow the sequence counter on recovery.
+                    if tombstone.sequence == u64::MAX {
+                        continue;
+                    }
                     if tombstone.sequence > seq {
                         seq = tombstone.sequence;
                         // The address is relative to the log, not to the page.
